@@ -206,11 +206,42 @@ def _install_specialisations(ctx, ef):
     get_q = "ZConfig.datatypes.Registry.get"
 
     def skip(fi, call, ident):
-        if ident[0] == get_q and call.args and isinstance(
-                call.args[0], ast.Constant) and call.args[0].value in keys:
-            return True
+        if ident[0] == get_q and call.args:
+            vals = possible_constants(fi, call.args[0])
+            if vals is not None and vals <= keys:
+                return True
         return False
     ef.skip_call = skip
+
+
+def possible_constants(fi, e, depth=3):
+    """The finite set of constants an expression can evaluate to (a literal,
+    a conditional expression over such, a local every binding of which is
+    such), or None when it is not a finite set of literals."""
+    if isinstance(e, ast.Constant):
+        return {e.value}
+    if isinstance(e, ast.IfExp):
+        a = possible_constants(fi, e.body, depth)
+        b = possible_constants(fi, e.orelse, depth)
+        return None if a is None or b is None else a | b
+    if isinstance(e, ast.Name) and depth > 0 and e.id not in fi.params:
+        out = set()
+        binds = [n for n in walk_shallow(fi.node)
+                 if isinstance(n, ast.Assign) and any(
+                     isinstance(t, ast.Name) and t.id == e.id
+                     for t in n.targets)]
+        others = [n for n in walk_shallow(fi.node)
+                  if isinstance(n, ast.Name) and n.id == e.id
+                  and isinstance(n.ctx, ast.Store)]
+        if not binds or len(others) != len(binds):
+            return None
+        for b in binds:
+            v = possible_constants(fi, b.value, depth - 1)
+            if v is None:
+                return None
+            out |= v
+        return out
+    return None
 
 
 # ---------------------------------------------------------------------- R2
@@ -769,50 +800,71 @@ def _r5_mappings(ctx):
 # ---------------------------------------------------------------------- R7
 
 def _r7_validator(ctx):
+    """Exit status of the validator command, decided on the interpreted paths
+    of main() with the loop over the files run for two files (helpers unknown
+    to the rules are seen through): a path on which k loads raised a
+    configuration error returns 1 iff k > 0, else 0, and has printed exactly
+    k messages; nothing else is returned after the schema was loaded."""
     run, m, P = ctx.run, ctx.model, ctx.program
+    from zcstatic import absint as A
     fn = m.fn("ZConfig.validator.main")
-    loops = [n for n in walk_shallow(fn.node) if isinstance(n, ast.For)]
-    ok = False
-    why = "no loop over the files with a try around the load"
-    for lp in loops:
-        trys = [s for s in lp.body if isinstance(s, ast.Try)]
-        if len(lp.body) != 1 or len(trys) != 1:
+    paths = A.Interp(fn, P, loop_policy=lambda n: "twice").paths()
+    n_fail = 0
+    n_checked = 0
+    seen_two = False
+    for p in paths:
+        if p.outcome[0] != "return":
             continue
-        t = trys[0]
-        calls = [n for s in t.body for n in ast.walk(s)
-                 if isinstance(n, ast.Call)]
-        loads = [c for c in calls if (dotted(c.func) or "").endswith(
-            "loadConfigFile")]
-        if len(t.body) != 1 or not loads:
-            why = "try body is not exactly the load call"
+        loads = [e for e in p.effects if e[0] == "call"
+                 and "loadConfigFile" in A.fmt(e[1][1])]
+        caught = [a for a, v in p.valuation.items() if a[0] == "raises"
+                  and v is True and "loadConfigFile" in A.fmt(a[1])]
+        other = [a for a, v in p.valuation.items() if a[0] == "raises"
+                 and v is True and "loadConfigFile" not in A.fmt(a[1])]
+        if other:
             continue
-        if len(t.handlers) != 1:
-            why = "more than one handler"
+        # only messages printed from here on count: those after the first load
+        prints = 0
+        started = False
+        for e in p.effects:
+            if e[0] == "call" and "loadConfigFile" in A.fmt(e[1][1]):
+                started = True
+            elif started and e[0] == "call" and A.fmt(e[1][1]) in (
+                    "builtins.print", "sys.stderr.write"):
+                prints += 1
+        if not loads:
             continue
-        h = t.handlers[0]
-        cls = m.resolve(fn.module, h.type) if h.type is not None else None
-        if cls != CFGERR:
-            why = "handler catches %s, not ZConfig.ConfigurationError" % cls
-            continue
-        flags = [s for s in h.body if isinstance(s, ast.Assign)
-                 and isinstance(s.value, ast.Constant) and s.value.value is True]
-        prints = [s for s in h.body if isinstance(s, ast.Expr)
-                  and isinstance(s.value, ast.Call)
-                  and src(s.value.func) == "print"]
-        if len(flags) != 1 or len(prints) != 1:
-            why = "handler does not print one message and set the flag"
-            continue
-        flag = src(flags[0].targets[0])
-        rets = [n for n in walk_shallow(fn.node) if isinstance(n, ast.Return)
-                and n.lineno > lp.lineno]
-        if len(rets) == 1 and src(rets[0].value) == "int(%s)" % flag:
-            ok = True
-            why = ("loop body is try: load / except ConfigurationError: print, "
-                   "%s = True; returns int(%s)" % (flag, flag))
-        else:
-            why = "does not return int(%s)" % flag
-    run.check(ok, "C07.R7", fn.qualname, "exit status", why,
-              "validator.main: " + why, loc=m.loc(fn, fn.node))
+        n_checked += 1
+        if len(loads) >= 2:
+            seen_two = True
+        val = p.outcome[1]
+        want = 1 if caught else 0
+        ok = A.is_const(val) and not isinstance(val[1], bool) \
+            and val[1] == want
+        if A.is_const(val) and isinstance(val[1], bool):
+            ok = False
+        if ok and prints != len(caught):
+            ok = False
+        if not ok:
+            n_fail += 1
+            if n_fail <= 2:
+                run.fail("C07.R7", fn.qualname, "exit status",
+                         "with %d file(s) loaded of which %d raised a "
+                         "configuration error, main() returns %s after %d "
+                         "message(s); expected status %d and %d message(s)"
+                         % (len(loads), len(caught), A.fmt(val), prints, want,
+                            len(caught)), loc=m.loc(fn, fn.node),
+                         witness={"loads": len(loads), "failed": len(caught),
+                                  "returns": A.fmt(val), "messages": prints})
+    if not n_checked or not seen_two:
+        raise AnalysisError("anchor vanished: validator.main has no path "
+                            "that loads two configuration files")
+    if not n_fail:
+        run.ok("C07.R7", fn.qualname, "exit status",
+               "on all %d returning paths that load files (up to two files), "
+               "the status is 1 iff a load raised a configuration error, "
+               "else 0, with one message per failed load" % n_checked,
+               loc=m.loc(fn, fn.node))
 
 
 # ---------------------------------------------------------------------- R8
